@@ -63,6 +63,7 @@ type outcome struct {
 }
 
 type frame struct {
+	r       *refInterp
 	vars    map[int]rval
 	fn      *Fn
 	statics map[int]*rval // static cells visible in this activation
@@ -76,6 +77,7 @@ type refInterp struct {
 	steps   int
 	budget  int
 	depth   int
+	undef   bool // a variable was read before anything was assigned to it
 }
 
 func (r *refInterp) tick() {
@@ -91,6 +93,9 @@ func (f *frame) get(x int) rval {
 	}
 	if v, ok := f.vars[x]; ok {
 		return v
+	}
+	if f.r != nil {
+		f.r.undef = true
 	}
 	return rnull
 }
@@ -260,7 +265,7 @@ func (r *refInterp) call(fr *frame, e *E) rval {
 	for i, a := range e.Args {
 		args[i] = r.eval(fr, a)
 	}
-	nf := &frame{vars: map[int]rval{}, fn: f, statics: map[int]*rval{}}
+	nf := &frame{r: r, vars: map[int]rval{}, fn: f, statics: map[int]*rval{}}
 	for i, p := range f.Params {
 		switch {
 		case i < len(args):
@@ -450,6 +455,7 @@ type RefResult struct {
 	Out    string
 	Status string // done | error | budget
 	Steps  int
+	Undef  bool // the run read a variable nothing had been assigned to (outside the typed core)
 }
 
 // RunRef runs the reference interpreter with a step budget.
@@ -461,6 +467,7 @@ func RunRef(p *Prog, budget int) (res RefResult) {
 	defer func() {
 		res.Out = r.out.String()
 		res.Steps = r.steps
+		res.Undef = r.undef
 		if x := recover(); x != nil {
 			switch x.(type) {
 			case refErr:
@@ -472,7 +479,7 @@ func RunRef(p *Prog, budget int) (res RefResult) {
 			}
 		}
 	}()
-	fr := &frame{vars: map[int]rval{}, statics: map[int]*rval{}}
+	fr := &frame{r: r, vars: map[int]rval{}, statics: map[int]*rval{}}
 	o := r.block(fr, p.Main)
 	res.Status = "done"
 	if o.k == "brk" || o.k == "cont" {
